@@ -19,10 +19,10 @@ def file_hash(p):
 class C14(Prop):
     ID = "C14"
     MODULE = "AwProofs.Props.C14"
-    THEOREMS = ["AwProofs.C14.migration_count_and_members", "AwProofs.C14.migration_ids_distinct", "AwProofs.C14.migration_preserves", "AwProofs.C14.migration_succeeds", "AwProofs.C14.old_unchanged", "AwProofs.C14.trigger_iff"]
+    THEOREMS = ["AwProofs.C14.migration_count_and_members", "AwProofs.C14.migration_ids_distinct", "AwProofs.C14.migration_preserves", "AwProofs.C14.migration_succeeds", "AwProofs.C14.old_unchanged", "AwProofs.C14.trigger_iff", "AwProofs.C14.legacy_file_untouched", "AwProofs.C14.legacy_file_altered_before_F27"]
     WORKERS = 8
-    LEVEL_TEXT = 'Lean 4 theorems over the peewee and sqlite table models: migration_succeeds, migration_preserves (every legacy bucket with its metadata, its events as a multiset of instant/duration/data: Perm modulo ids), migration_ids_distinct, trigger_iff (same profile, new file, default path); real legacy databases in private XDG directories are migrated and compared, legacy file bytes hashed'
-    LEVEL_NOTE = 'trusts: Lean kernel + 3 standard axioms; backend models as validated by C02/C04; legacy-file immutability is observed (hash), not modelled'
+    LEVEL_TEXT = 'Lean 4 theorems over the peewee and sqlite table models: migration_succeeds, migration_preserves (every legacy bucket with its metadata, its events as a multiset of instant/duration/data: Perm modulo ids), migration_ids_distinct, trigger_iff (same profile, new file, default path), legacy_file_untouched (also for files of the older schema vintage, F27); real legacy databases in private XDG directories are migrated and compared, legacy file bytes hashed'
+    LEVEL_NOTE = 'trusts: Lean kernel + 3 standard axioms; backend models as validated by C02/C04; the legacy file is modelled as (has the bucket data column, content): the legacy store adds the column to the file it opens, the migration gives it a scratch copy (legacy_file_untouched); that opening a current-schema file writes nothing is observed (hash of the file bytes) on every run'
     TECHNIQUE = "Lean 4 proof over the two store models + differential correspondence on real legacy databases in private XDG dirs"
     RULE = (
         "legacy databases written by the real PeeweeStorage at its default location under a private XDG_DATA_HOME "
@@ -95,6 +95,18 @@ class C14(Prop):
             out.append(("legacy-db-large", {"testing": rng.random() < 0.5, "mode": "same", "other_first": False,
                                             "buckets": [{"id": "big", "meta": storegen.mk_meta(rng, "big"), "events": evs},
                                                         {"id": "small", "meta": storegen.mk_meta(rng, "small"), "events": evs[:3]}]}))
+        # a legacy v2 file of an older vintage: written before the bucket table had its `datastr` column (the legacy store adds
+        # the column to its own files when it opens them: `auto_migrate`)
+        for k in range(ctx.pick(6, 30)):
+            bs = []
+            for j in range(rng.choice([1, 2, 3])):
+                bid = f"old-{j}"
+                m = storegen.mk_meta(rng, bid)
+                m["data"] = None
+                bs.append({"id": bid, "meta": m, "events": [[None, T0 + rng.randrange(0, 50) * 1_000_000, rng.choice([0, 1500, 2_000_000]),
+                                                             rng.choice(storegen.LABELS)] for _ in range(rng.randint(0, 6))]})
+            out.append(("legacy-old-schema", {"testing": k % 2 == 0, "mode": rng.choice(["same", "same", "other-profile"]), "other_first": False,
+                                              "old_schema": True, "buckets": bs}))
         # texts that a JSON document can carry only escaped (half of a surrogate pair, NUL) or that some tools treat as
         # line ends; the model's strings are UTF-8, so these cases are judged on the two real stores alone
         ODD = ["\ud83d", "half \ude00 pair", "nul\x00char", "line\u2028sep\u2029", "\x7f\x80\ufffe"]
@@ -140,6 +152,13 @@ class C14(Prop):
                     open(lpath + suffix, "wb").close()
                 else:
                     shutil.copy(lpath, lpath + suffix)
+            if case.get("old_schema"):
+                import sqlite3
+
+                c = sqlite3.connect(lpath)
+                c.execute("ALTER TABLE bucketmodel DROP COLUMN datastr")
+                c.commit()
+                c.close()
             h0 = file_hash(lpath)
             if case.get("other_first"):
                 # the store of the other profile already exists in the shared data directory
